@@ -5,7 +5,7 @@ from ..core import sym
 from ..core.expand import u, call_name, get_arg, bind_args, Expander, is_marker, phi_alternatives
 from ..core.loader import Inconclusive, const_value, parents
 from .common import (returns, all_nodes, callee, strip_shape, calls_in, guards_of, guard_dnf, stmt_of, loops_around, role_of, kw,
-                     is_true, find_assignments)
+                     is_true, find_assignments, literal_dnf, is_none_test)
 from . import sentinel
 
 EXPLANATION = (
@@ -267,6 +267,47 @@ def rule_who(ck):
             o.ok('region.%s(longitudes, latitudes)' % meth)
         else:
             o.fail('region.%s is called with (%s, %s); the region expects (longitudes, latitudes)' % (meth, u(c.args[0]), u(c.args[1])))
+
+
+def rule_given_region(ck):
+    """D2.given: a region handed to filter_spatial is the region that is asked: the only condition on `self.region = region` is that a
+    region was given.  An equality test against the region already bound (`region != self.region`) lets an "equal" region - same
+    lattice, other flagged-out cells: region equality compares name, spacing and origins only - be ignored, and the events are
+    masked by the old partition."""
+    P = ck.prog
+    ck.clause('D2')
+    f = P.func('csep.core.catalogs.AbstractBaseCatalog.filter_spatial')
+    if 'region' not in f.params:
+        return
+    binds = [a for a in all_nodes(f) if isinstance(a, ast.Assign) and any(u(t) == 'self.region' for t in a.targets)]
+    o = ck.ob('C01-D2.given', f, binds[0] if binds else 'self.region = region', binds[0] if binds else f.node)
+    if not binds:
+        # the region argument must then be the receiver of get_masked itself
+        calls = [n for n in all_nodes(f) if isinstance(n, ast.Call) and isinstance(n.func, ast.Attribute) and n.func.attr == 'get_masked']
+        ok = bool(calls) and all('region' in u(Expander(P, f).expand(c.func.value)) and 'self.region' not in u(c.func.value) for c in calls)
+        (o.ok('the given region is asked directly') if ok else o.fail('a region passed to filter_spatial is never bound or asked'))
+        return
+    probs = []
+    for a in binds:
+        if not (isinstance(a.value, ast.Name) and a.value.id == 'region'):
+            probs.append('`%s` binds something else than the given region' % u(a))
+            continue
+        # the whole condition (nested ifs and earlier guard clauses) in disjunctive normal form must be equivalent to `region is not
+        # None`: every disjunct contains that literal and one disjunct is that literal alone (absorption)
+        conjs = []
+        for conj in guard_dnf(a, f.node):
+            lits = set()
+            for atom, pl in conj:
+                if (is_none_test(atom, 'region') and not pl) or (is_none_test(ast.UnaryOp(op=ast.Not(), operand=atom), 'region') and pl):
+                    lits.add('GIVEN')
+                else:
+                    lits.add(('%s' if pl else 'not (%s)') % u(atom))
+            conjs.append(lits)
+        if not (conjs and all('GIVEN' in c for c in conjs) and any(c == {'GIVEN'} for c in conjs)):
+            extra = sorted(x for c in conjs for x in c if x != 'GIVEN')
+            probs.append('`%s` also depends on `%s`: a given region that this test calls equal to the bound one is ignored, although regions '
+                         'compare by name, spacing and origins only - not by their flagged-out cells' % (u(a), (extra or ['?'])[0][:60]))
+    (o.fail('; '.join(probs)) if probs else o.ok('bound whenever a region is given'))
 
 
 def rule_raw_coordinates(ck):
@@ -666,5 +707,5 @@ def rule_precision(ck):
     rule_double_precision(ck, 'C01-D1.double', modules=('csep.core.regions', 'csep.utils.calc'), what='cell origins, edges and coordinates')
 
 
-RULES = [rule_partition, rule_who, rule_raw_coordinates, rule_sentinel, rule_mask_polarity, rule_midpoints, rule_lattice_step, rule_single_edge,
+RULES = [rule_partition, rule_who, rule_given_region, rule_raw_coordinates, rule_sentinel, rule_mask_polarity, rule_midpoints, rule_lattice_step, rule_single_edge,
          rule_kernel_shared, rule_counts_shared, rule_precision]
